@@ -558,7 +558,11 @@ func genFanIn(r *vc.Rand, index int) *Scenario {
 	}
 	if r.Chance(1, 2) {
 		// one of the last dependencies fails: the dependent must not run at all
-		sc.Jobs[m-1-r.Intn(100)].Beh = BehErr
+		k := m - 1 - r.Intn(100)
+		sc.Jobs[k].Beh = BehErr
+		// ... after a while: a dependent that is (wrongly) ready by then gets a
+		// worker while this body is still running
+		sc.Jobs[k].Delay, sc.Jobs[k].DelayArg = 2, 2000
 	}
 	sc.Jobs = append(sc.Jobs, JobSpec{Deps: deps})
 	sc.GateOpen = "enqueued" // the gate opens once everything has been enqueued
